@@ -584,8 +584,14 @@ def check(fx, rep, tier):
             if body.in_test or 'json_ser' not in body.path or body.name not in ('write_f32', 'write_f64'):
                 continue
             want_ty = body.name[-3:]
+            fmts = [(b, t) for b, t in body.iter_terms('call') if t['callee'].get('name') in ('format_finite', 'format')]
+            same_crate = [(b, t) for b, t in fmts if (t['callee'].get('krate') or '') == 'ryu' or (t['callee'].get('def') or '').startswith('ryu::')]
+            rep.check(bool(fmts) and len(same_crate) == len(fmts), 'E5', 'float|%s|formatter-is-ryu|%s' % (body.name, cfg), body.where(),
+                      '%s prints through ryu, the formatter serde_json %s prints floats with' % (body.name, REF_VERSION if 'REF_VERSION' in globals() else ''),
+                      '%s does not print through the `ryu` crate (%s): serde_json - the reference of this property - does, and another shortest-representation formatter differs in '
+                      'notation (e.g. `1e+16` for `1e16`) although both are correct decimals' % (body.name, ', '.join(sorted({t['callee'].get('def') or '?' for _, t in fmts})) or 'no formatter call found'))
             for b, t in body.iter_terms('call'):
-                if t['callee'].get('name') in ('format_finite', 'format') and 'ryu' in (t['callee'].get('def') or t['callee'].get('krate') or ''):
+                if t['callee'].get('name') in ('format_finite', 'format') and ((t['callee'].get('krate') or '') == 'ryu' or (t['callee'].get('def') or '').startswith('ryu::')):
                     inst = (t['callee'].get('args') or '')
                     aty = ((mir.op_place(t['args'][1]) or {}).get('ty') or t['args'][1].get('ty') or '') if len(t['args']) > 1 else ''
                     okw = (want_ty in inst) if inst else (aty == want_ty)
